@@ -184,18 +184,68 @@ func ruleNPos(w *World, r *Report) {
 				}
 				incs += closureIncs
 			}
-			for blk := b; blk != nil; {
+			countIn := func(blk *ssa.BasicBlock) int {
+				k := 0
 				for _, in := range blk.Instrs {
 					if st, ok := in.(*ssa.Store); ok {
 						if f, ok := recvFieldAddr(st.Addr); ok && f == pf {
 							if isIncOf(st.Val, pf) {
-								incs++
-							} else if k, ok := constInt(st.Val); ok && k == 1 {
-								incs++ // first match of a fresh input: position 1
+								k++
+							} else if c, ok := constInt(st.Val); ok && c == 1 {
+								k++ // first match of a fresh input: position 1
 							}
 						}
 					}
 				}
+				return k
+			}
+			// a single `return node` after `if node != nil { posit++ }`: the edge on
+			// which the returned value is nil is not a yield; every other way into
+			// the return block must have counted once
+			joined := false
+			if rv := strip(retVal(ret, 0)); len(b.Preds) > 1 && countIn(b) == 0 {
+				allOK, judgedAny := true, false
+				for _, p := range b.Preds {
+					nilEdge := false
+					if ifi := blockIf(p); ifi != nil {
+						if cmp, neg := decodeCond(ifi.Cond); cmp != nil && (cmp.Op == token.NEQ || cmp.Op == token.EQL) && isNilConst(strip(cmp.Y)) && sameValue(cmp.X, rv) {
+							// successor taken when rv == nil
+							eq := cmp.Op == token.EQL
+							if neg {
+								eq = !eq
+							}
+							nilSucc := p.Succs[1]
+							if eq {
+								nilSucc = p.Succs[0]
+							}
+							if nilSucc == b {
+								nilEdge = true
+							}
+						}
+					}
+					if nilEdge {
+						continue
+					}
+					judgedAny = true
+					k := 0
+					for blk := p; blk != nil; {
+						k += countIn(blk)
+						if len(blk.Preds) != 1 || blockIf(blk.Preds[0]) != nil {
+							break
+						}
+						blk = blk.Preds[0]
+					}
+					if k != 1 {
+						allOK = false
+					}
+				}
+				if judgedAny && allOK {
+					joined = true
+					incs = 1
+				}
+			}
+			for blk := b; blk != nil && !joined; {
+				incs += countIn(blk)
 				if len(blk.Preds) != 1 || blockIf(blk.Preds[0]) != nil {
 					break
 				}
